@@ -11,6 +11,17 @@
     (68000: NULL, Z80: AF', SC/MP: H'..' constants);
     (3) the SPEC's structured lines are rendered and the theorem instance split(render l) = fields l is evaluated.
 
+Statements that prepare state for the next one / prefix-style statements (added after seeded changes C16-e/f were missed):
+  * every second run of a golden source gets a blank or comment-only line between (nearly) every two lines, so that each directive that acts
+    on "the instruction following directly" (Z380 DDIR), each parallel / continued instruction (TMS320C6x `||`, uPD772x OP sub-operations) is
+    separated from its partner by a line without an instruction at least once per run;
+  * the separator runs label->mnemonic and mnemonic->parameters are also *respelled* (blank <-> tab), not only extended;
+  * for the prefix-style statements of PREFIX_KINDS the gaps inside the first parameter (prefix word -> inner mnemonic -> first operand) are
+    respelled and the inner mnemonic recased; `#define NAME text` lines are respelled in their two gaps; the Lean model judges each such
+    line with the code generator's own second-level split (driver modes c16px / c16def);
+  * vlib/props/c16_prefix.py: generated and hand-written prefix texts for six families in plain / tab-first / blank-first / mixed spellings and
+    with blank, comment-only and label-only lines between all statements; Z380 DDIR/JP programs against Model/PrefixCarry + Spec/PrefixCarry.
+
 The rewrite generator is deliberately conservative (a false alarm is worse than a miss); every exclusion is listed in
 EXCLUSIONS below and counted in the evidence.
 """
@@ -21,18 +32,28 @@ import shutil
 
 from .. import common
 from ..common import log
+from . import c16_prefix
 
 EXCLUSIONS = [
     "lines ending in a backslash (continuation) and the line after them: nothing is inserted or changed (only the line end may become CR-LF)",
     "MACRO/IRP/IRPC/IRPN/REPT/WHILE header lines, their bodies and the ENDM line: untouched (parameters may be stringified / re-split)",
-    "lines containing \\{ (string interpolation) or a '#' preprocessor line: untouched",
+    "lines containing \\{ (string interpolation): untouched; '#' preprocessor lines: only '#define NAME text' / '#undef NAME' are respelled, and only in the "
+    "gaps between directive, name and text, the case of the directive word and trailing blanks (no comment is added: Preprocess() does not cut comments)",
     "letter case: only the mnemonic field (incl. attribute) and only if it is a plain [A-Za-z_][A-Za-z0-9_]* word with optional .attr; never operands, symbols, strings; with -U in asflags never for names defined as MACRO/STRUCT/UNION in the file",
-    "blanks: only trailing, before the mnemonic (where a blank already is), directly after the mnemonic's blank, and directly after a top-level ',' of the argument field; never inside an operand",
+    "blanks: only trailing, before the mnemonic (where a blank already is; the whole run may be respelled blank<->tab), between mnemonic and argument field (inserted or the "
+    "whole run respelled), and directly after a top-level ',' of the argument field; never inside an operand.  Inside the first parameter only for the prefix-style "
+    "statements of PREFIX_KINDS (MSP430X RPTC/RPTZ, TMS320C6x ||/[cond], uPD772x OP, Rabbit 2000 ALTD), where the first parameter carries a further mnemonic: the gaps "
+    "prefix word -> mnemonic -> first operand are gaps between components of the line",
+    "uPD77230 multi-instruction lines (several mnemonics with operands on one line, divided where the operand count of each mnemonic says): inner gaps NOT respelled "
+    "(where the line divides is not a property of the spelling alone; not modelled)",
+    "SH7000 DCT/DCF prefix: not used as material (code7000.c DecodeDCT_DCF only splits its argument and emits nothing - the DSP instructions are not implemented)",
     "argument-separator blanks, comment append/removal: not on lines containing a single quote (per-target QualifyQuote rules: AF' on Z80, H'12' constants) and only where label/mnemonic contain no quote/bracket/backslash",
     "comment is appended only where the quote/bracket scan of the line ends outside quotes and brackets; appended text never ends in a backslash",
     "sources that select a DSP56xxx CPU: no blanks after ',' (the manual: 'exception: DSP56xxx, its parallel data transfers are separated with blanks')",
     "colon: only for a non-empty label in column 1 followed by a blank or the line end; 'lab:op' without blank is left alone",
-    "blank/comment-only lines are not inserted after a continuation line nor inside macro/repetition bodies; sources using MOMLINE are not given extra lines",
+    "blank/comment-only lines are not inserted after a continuation line nor inside macro/repetition bodies; sources using MOMLINE are not given extra lines; "
+    "label-only lines are inserted only in the generated prefix texts (c16_prefix.py), never into golden sources (a new global label changes what '.local' style "
+    "and nameless temporary labels of the source attach to)",
     "every rewritten line must have model fields equal to the original's (Lean c16pair); otherwise the rewrite of that line is dropped (counted as model_rejected)",
     "to-macro: only sources without MACRO/ENDM/IRP*/REPT/WHILE/EXITM/SHIFT/END/'#' lines, continuation lines, ATTRIBUTE/ALLARGS/ARGCOUNT/__LABEL__ words "
     "(texts that define/call macros and repetitions referring to their own labels are covered by the generated wrap texts instead)",
@@ -40,6 +61,17 @@ EXCLUSIONS = [
 
 SPACES = " \t\n\x0b\x0c\r"
 PSPEC = "2c/1/2e/3b/n"
+
+# prefix-style statements: the code generator splits the first parameter once more at blanks/tabs.
+# CPU name (as in the CPU statement, upper case) -> (model kind of Model/Split.lean resplit, parameter spec of the target's SplitLine)
+PREFIX_KINDS = {
+    "32060": ("c6x", "2c/1/2e/3b/n"),
+    "MSP430X": ("rpt", "2c/1/2e/3b/n"),
+    "7720": ("op", "2c/0/2e/3b/n"),
+    "7725": ("op", "2c/0/2e/3b/n"),
+    "RABBIT2000": ("altd", "2c/0/2e/3b/z"),
+}
+PREFIX_OPS = {"c6x": None, "rpt": {"RPTC", "RPTZ"}, "op": {"OP"}, "altd": {"ALTD"}}
 
 
 def hx(s):
@@ -171,7 +203,7 @@ def classify(lines):
         if cont:
             frozen[i] = True
         prev_cont = cont
-        if "\\{" in l or l.lstrip(SPACES).startswith("#"):
+        if "\\{" in l:
             frozen[i] = True
         if depth > 0:
             frozen[i] = True
@@ -185,6 +217,90 @@ def classify(lines):
         if opu in ("MACRO", "STRUCT", "UNION") and labu:
             names.add(labu)
     return frozen, noinsert, names
+
+
+def prefix_sites(line, a, kind):
+    """prefix-style statement of the given kind: (blank runs inside the first parameter that separate prefix word(s), inner mnemonic and
+    first operand, span of the inner mnemonic); ([], None) if the line is no such statement or its first parameter is not plain"""
+    if a["op"] is None or kind is None:
+        return [], None
+    body = line[:a["body_len"]]
+    opu = body[a["op"][0]:a["op"][1]].upper()
+    if kind == "c6x":
+        is_px = opu == "||" or opu.startswith("[")
+    else:
+        is_px = opu in PREFIX_OPS[kind]
+    if not is_px:
+        return [], None
+    n = len(body)
+    i = a["argstart"]
+    while i < n and body[i] in SPACES:
+        i += 1
+    end = a["commas"][0] if a["commas"] else n
+    words, runs = [], []
+    j = i
+    while j < end:
+        k = j
+        while k < end and body[k] not in " \t":
+            k += 1
+        words.append((j, k))
+        r = k
+        while r < end and body[r] in " \t":
+            r += 1
+        if k < r < end:
+            runs.append((k, r))
+        j = r
+    if not words:
+        return [], None
+    lead = 0
+    if kind == "c6x":
+        if opu == "||":
+            while lead < len(words) and body[words[lead][0]] == "[":
+                lead += 1
+    elif kind == "rpt":
+        lead = 1
+    nsep = lead + 1
+    runs = runs[:nsep]
+    upto = runs[-1][1] if runs else words[min(lead, len(words) - 1)][1]
+    seg = body[i:upto]
+    if any(c in seg for c in "\"'()\;"):
+        return [], None
+    for (ws, we) in words[:nsep]:
+        w = body[ws:we]
+        if ("[" in w or "]" in w) and not (kind == "c6x" and w.startswith("[") and w.endswith("]") and w.count("[") == 1 and w.count("]") == 1):
+            return [], None
+    mn = words[lead] if lead < len(words) else None
+    return runs, mn
+
+
+DEFINE_RE = re.compile(r"^([ \t]*)#([A-Za-z]+)([ \t]+)(\S+)(?:([ \t]+)(\S(?:.*\S)?))?([ \t]*)$")
+
+
+def rewrite_define(rng, line):
+    """'#define NAME text' / '#undef NAME': gaps respelled, directive word recased, trailing blanks; everything else untouched"""
+    m = DEFINE_RE.match(line)
+    if not m or m.group(2).upper() not in ("DEFINE", "UNDEF"):
+        return line, []
+    if m.group(2).upper() == "UNDEF" and m.group(6) is not None:
+        return line, []
+    lead, word, g1, name, g2, text, trail = m.groups()
+    kinds = []
+    if rng.random() < 0.5:
+        nw = recase(rng, word)
+        if nw != word:
+            word = nw
+            kinds.append("define-case")
+    if rng.random() < 0.7:
+        g1 = blanks(rng)
+        kinds.append("define-gap")
+    if g2 is not None and rng.random() < 0.7:
+        g2 = blanks(rng)
+        if "define-gap" not in kinds:
+            kinds.append("define-gap")
+    if rng.random() < 0.3:
+        trail = blanks(rng)
+        kinds.append("trailing-blanks")
+    return lead + "#" + word + g1 + name + (g2 + text if g2 is not None else "") + trail, kinds
 
 
 COMMENTS = ["c16", " rewritten", "x 'y", ' "q', ";;", " (", "\ttab [", " 1,2", "\\ x"]
@@ -203,7 +319,7 @@ def recase(rng, s):
     return "".join(c.upper() if rng.random() < 0.5 else c.lower() for c in s)
 
 
-def rewrite_line(rng, line, caseok_names, stats, blank_divides=False):
+def rewrite_line(rng, line, caseok_names, stats, blank_divides=False, kind=None):
     """returns (new line, list of rewrite kinds applied)"""
     a = analyze(line)
     kinds = []
@@ -214,35 +330,8 @@ def rewrite_line(rng, line, caseok_names, stats, blank_divides=False):
     head_plain = not any(c in body[:head_end] for c in "\"'()[]\\")
     edits = []  # (position in body, delete count, insert text), applied right to left
 
-    # letter case of mnemonic/attribute
-    if a["op"] and rng.random() < 0.5:
-        s, e = a["op"]
-        tok = body[s:e]
-        if OP_RE.match(tok) and tok.upper().split(".")[0] not in caseok_names:
-            nt = recase(rng, tok)
-            if nt != tok:
-                edits.append((s, e - s, nt))
-                kinds.append("case")
-    # blanks before the mnemonic
-    if a["op"] and rng.random() < 0.35:
-        s = a["op"][0]
-        if s > 0 and body[s - 1] in " \t":
-            edits.append((s, 0, blanks(rng)))
-            kinds.append("gap-before-op")
-    # blanks after the mnemonic
-    if a["op"] and rng.random() < 0.35:
-        e = a["op"][1]
-        if e < len(body) and body[e] in " \t" and body[e + 1:].strip(SPACES):
-            edits.append((e + 1, 0, blanks(rng)))
-            kinds.append("gap-after-op")
-    # blanks after argument separators
-    if a["commas"] and not has_sq and head_plain and not blank_divides and rng.random() < 0.5:
-        for k in a["commas"]:
-            if rng.random() < 0.6:
-                edits.append((k + 1, 0, blanks(rng)))
-                if "gap-after-comma" not in kinds:
-                    kinds.append("gap-after-comma")
-    # colon after a column-1 label
+    # colon after a column-1 label (decided first: a respelled run next to the label must not collide with it)
+    label_edit = False
     if a["label"] and a["label_col1"] and a["label"][1] > 0 and rng.random() < 0.4:
         e = a["label"][1]
         nxt = body[e] if e < len(body) else ""
@@ -258,10 +347,71 @@ def rewrite_line(rng, line, caseok_names, stats, blank_divides=False):
                 elif comment:
                     edits.append((e, 1, " "))
                     kinds.append("colon-removed")
+                label_edit = True
         elif nxt == "" or nxt in " \t":
             edits.append((e, 0, ":"))
             kinds.append("colon-added")
-    for pos, dele, ins in sorted(edits, key=lambda t: -t[0]):
+            label_edit = True
+    # letter case of mnemonic/attribute
+    if a["op"] and rng.random() < 0.5:
+        s, e = a["op"]
+        tok = body[s:e]
+        if OP_RE.match(tok) and tok.upper().split(".")[0] not in caseok_names:
+            nt = recase(rng, tok)
+            if nt != tok:
+                edits.append((s, e - s, nt))
+                kinds.append("case")
+    # blanks before the mnemonic: inserted, or the whole run respelled (blank <-> tab)
+    if a["op"] and rng.random() < 0.35:
+        s = a["op"][0]
+        if s > 0 and body[s - 1] in " \t":
+            rs = s
+            while rs > 0 and body[rs - 1] in " \t":
+                rs -= 1
+            lab_end = a["label"][1] if a["label"] else 0
+            if not label_edit and head_plain and rs >= lab_end and rng.random() < 0.5 and (rs > 0 or not a["label"]):
+                edits.append((rs, s - rs, blanks(rng)))
+                kinds.append("gap-before-op-respelled")
+            else:
+                edits.append((s, 0, blanks(rng)))
+                kinds.append("gap-before-op")
+    # blanks after the mnemonic: inserted, or the whole run respelled
+    if a["op"] and rng.random() < 0.35:
+        e = a["op"][1]
+        if e < len(body) and body[e] in " \t" and body[e + 1:].strip(SPACES):
+            re_ = e
+            while re_ < len(body) and body[re_] in " \t":
+                re_ += 1
+            if rng.random() < 0.5:
+                edits.append((e, re_ - e, blanks(rng)))
+                kinds.append("gap-after-op-respelled")
+            else:
+                edits.append((e + 1, 0, blanks(rng)))
+                kinds.append("gap-after-op")
+    # prefix-style statements: the gaps inside the first parameter (prefix word -> mnemonic -> first operand), case of the inner mnemonic
+    if kind is not None and head_plain:
+        runs, mn = prefix_sites(line, a, kind)
+        for (rs, re_) in runs:
+            if rng.random() < 0.7:
+                edits.append((rs, re_ - rs, blanks(rng)))
+                if "prefix-inner-gap" not in kinds:
+                    kinds.append("prefix-inner-gap")
+        if mn is not None and rng.random() < 0.4:
+            tok = body[mn[0]:mn[1]]
+            if OP_RE.match(tok) and tok.upper().split(".")[0] not in caseok_names:
+                nt = recase(rng, tok)
+                if nt != tok:
+                    edits.append((mn[0], mn[1] - mn[0], nt))
+                    kinds.append("prefix-inner-case")
+    # blanks after argument separators
+    if a["commas"] and not has_sq and head_plain and not blank_divides and rng.random() < 0.5:
+        for k in a["commas"]:
+            if rng.random() < 0.6:
+                edits.append((k + 1, 0, blanks(rng)))
+                if "gap-after-comma" not in kinds:
+                    kinds.append("gap-after-comma")
+    # right to left; at one position the replacement first, then the insertion in front of it
+    for pos, dele, ins in sorted(edits, key=lambda t: (-t[0], t[1] == 0)):
         body = body[:pos] + ins + body[pos + dele:]
     # comment
     r = rng.random()
@@ -300,7 +450,8 @@ def split_lines(raw):
 
 
 def rewrite_source(rng, raw, flags, stats, mode):
-    """mode: 'lines' per-line rewrites; returns (new text, per-kind counts, samples, pairs for the model gate)"""
+    """mode: 'lines' per-line rewrites; returns (physical lines, texts, rewritten lines, pairs for the model gate, ...)
+    pairs: (line index, original, rewritten, gate) with gate = ("pair",) | ("px", kind, pspec) | ("def",)"""
     pl = split_lines(raw)
     lines = [l for l, _ in pl]
     frozen, noinsert, names = classify(lines)
@@ -312,24 +463,46 @@ def rewrite_source(rng, raw, flags, stats, mode):
     stats["blank_divides"] = blank_divides
     new = []
     pairs = []
+    cur_cpu = None
     for i, l in enumerate(lines):
+        opu, a = op_upper(l)
+        if opu == "CPU":
+            cur_cpu = l[a["argstart"]:a["body_len"]].strip(SPACES).upper()
         if frozen[i]:
             new.append((l, []))
             stats["frozen_lines"] += 1
             continue
-        nl, kinds = rewrite_line(rng, l, case_names, stats, blank_divides)
+        if l.lstrip(SPACES).startswith("#"):
+            nl, kinds = rewrite_define(rng, l)
+            new.append((nl, kinds))
+            if nl != l:
+                pairs.append((i, l, nl, ("def",)))
+            else:
+                stats["frozen_lines"] += 1
+            continue
+        kp = PREFIX_KINDS.get(cur_cpu)
+        nl, kinds = rewrite_line(rng, l, case_names, stats, blank_divides, kp[0] if kp else None)
         new.append((nl, kinds))
         if nl != l:
-            pairs.append((i, l, nl))
+            pairs.append((i, l, nl, ("px", kp[0], kp[1]) if any(k.startswith("prefix-inner") for k in kinds) else ("pair",)))
     return pl, lines, new, pairs, frozen, noinsert, uses_momline
 
 
-def assemble_text(rng, pl, new, noinsert, uses_momline, eol_mode, stats, counts):
+INSERTED = ["", "   ", "\t", "; c16 inserted", " \t; inserted"]
+
+
+def assemble_text(rng, pl, new, noinsert, uses_momline, eol_mode, stats, counts, dense=False, inserted=None):
+    """dense: a blank / comment-only line between (nearly) every two lines - in particular directly behind every statement that prepares
+    state for the next one (directive prefixes, parallel / continued instructions); inserted: list that receives (index of the line it precedes, text)"""
     out = []
     n = len(new)
+    p_ins = 0.6 if dense else 0.06
     for i, (l, kinds) in enumerate(new):
-        if not uses_momline and not noinsert[i] and rng.random() < 0.06:
-            out.append(rng.choice(["", "   ", "\t", "; c16 inserted", " \t; inserted"]))
+        if not uses_momline and not noinsert[i] and rng.random() < p_ins:
+            t = rng.choice(INSERTED)
+            out.append(t)
+            if inserted is not None:
+                inserted.append((i, t))
             counts["blank-line-inserted"] = counts.get("blank-line-inserted", 0) + 1
         out.append(l)
     # line ends
@@ -768,12 +941,31 @@ def run(args):
                 # model gate
                 rejected = 0
                 if pairs and drv_ok:
-                    ans = common.driver("c16pair", ["%s %s %s" % (PSPEC, hx(a), hx(b)) for (_, a, b) in pairs])
-                    for (i, a, b), r in zip(pairs, ans):
-                        if "eq=1" not in r:
+                    answers = {}
+                    for mode_, sel_ in (("c16pair", "pair"), ("c16px", "px"), ("c16def", "def")):
+                        sub = [(j, pr) for j, pr in enumerate(pairs) if pr[3][0] == sel_]
+                        if not sub:
+                            continue
+                        if sel_ == "pair":
+                            reqs = ["%s %s %s" % (PSPEC, hx(a), hx(b)) for _, (_, a, b, _) in sub]
+                        elif sel_ == "px":
+                            reqs = ["%s %s %s %s" % (g[2], g[1], hx(a), hx(b)) for _, (_, a, b, g) in sub]
+                        else:
+                            reqs = [hx(a) for _, (_, a, b, _) in sub] + [hx(b) for _, (_, a, b, _) in sub]
+                        ans = common.driver(mode_, reqs)
+                        for q, (j, pr) in enumerate(sub):
+                            if sel_ == "pair":
+                                answers[j] = ("eq=1" in ans[q], ans[q])
+                            elif sel_ == "px":
+                                answers[j] = ("eq=1" in ans[q] and "px=1" in ans[q] and "ok=1" in ans[q], ans[q])
+                            else:
+                                answers[j] = (ans[q] == ans[q + len(sub)] and ans[q].startswith("def=1"), ans[q] + " / " + ans[q + len(sub)])
+                    for j, (i, a, b, g) in enumerate(pairs):
+                        ok_, r = answers[j]
+                        if not ok_:
                             rejected += 1
                             if len([x for x in samples if x.get("kind") == "model-rejected"]) < 3:
-                                samples.append(dict(kind="model-rejected", test=name, orig=a, rewritten=b, answer=r))
+                                samples.append(dict(kind="model-rejected", test=name, orig=a, rewritten=b, gate=g[0], answer=r))
                             new[i] = (lines[i], [])
                 counts = {}
                 nrew = 0
@@ -784,7 +976,12 @@ def run(args):
                         counts[k] = counts.get(k, 0) + 1
                 eol_mode = ["crlf", "lf", "mixed"][(tidx // 3 + s) % 3] if s < 3 else rng.choice(["crlf", "lf", "mixed"])
                 dist["eol_" + eol_mode] += 1
-                text = assemble_text(rng, pl, new, noinsert, uses_momline, eol_mode, stats, counts)
+                # every second run of a source: an empty line between (nearly) every two lines (not when a source of more than 8000 lines
+                # is going to be wrapped into a macro: asl's expansion time is quadratic in the body length, t_m16 alone would take a minute)
+                dense = (s % 2 == 1) and not ((tidx + s + args.seed) % 3 == 2 and len(lines) > 8000)
+                inserted = []
+                text = assemble_text(rng, pl, new, noinsert, uses_momline, eol_mode, stats, counts, dense=dense, inserted=inserted)
+                dist["dense_insertion_runs"] = dist.get("dense_insertion_runs", 0) + (1 if dense else 0)
                 whole = None
                 # whole-file rewrites on some seeds
                 files = {name + ".asm": text}
@@ -835,7 +1032,7 @@ def run(args):
                                 changed_lines=[dict(line=i + 1, orig=lines[i], rewritten=l, kinds=k) for i, (l, k) in enumerate(new) if l != lines[i]][:400])
                     if whole == "to-macro" and "symbol double defined" in diag and builtin_sets(raw) >= 2:
                         fail["sig"] = "to-macro-second-cpu-or-flag-statement-double-defined"
-                    minimise(bdir, d, name, flags, tdir, ori, lines, new, pl, fail, whole, eol_mode)
+                    minimise(bdir, d, name, flags, tdir, ori, lines, new, pl, fail, whole, eol_mode, inserted)
                     spec_fail.append(fail)
             shutil.rmtree(d, ignore_errors=True)
 
@@ -862,7 +1059,7 @@ def run(args):
                                           sig=None if tag != "plain" else "generated-text-plain-spelling-wrong",
                                           why="image of the %s spelling of a generated text differs from the bytes the text specifies%s: expected %s got %s"
                                               % (tag, (" (" + diag[:300] + ")") if diag else "", expect.hex(), (img or b"").hex()),
-                                          files=files, incdir=d))
+                                          expect=expect.hex(), files=files, incdir=d))
                     if tag == "plain":
                         break
         shutil.rmtree(d, ignore_errors=True)
@@ -880,7 +1077,7 @@ def run(args):
             out = []
             npad = 0
             for i, l in enumerate(lines):
-                if not frozen[i] and len(l) < 200 and rng.random() < 0.2:
+                if not frozen[i] and not l.lstrip(SPACES).startswith("#") and len(l) < 200 and rng.random() < 0.2:
                     tgtlen = rng.choice([253, 254, 254, 255, 255, 256, 257])
                     l = l + " " * (tgtlen - len(l))
                     npad += 1
@@ -898,42 +1095,68 @@ def run(args):
                                       files={name + ".asm": "".join(out)}, incdir=os.path.dirname(asm)))
             shutil.rmtree(d, ignore_errors=True)
 
+        # ---------------- prefix-style statements / statements that prepare state for the next one: vlib/props/c16_prefix.py,
+        #                  Model/PrefixCarry.lean + Spec/PrefixCarry.lean, Model/Split.lean resplit/preprocess, Props/C16_Prefix.lean
+        import sys as _sys
+        pp = c16_prefix.run_part(_sys.modules[__name__], args, bdir, wd, drv_ok)
+        spec_fail += pp["spec_fail"]
+        corr_fail += pp["corr_fail"]
+        proof_problems += pp["problems"]
+        evaluations += pp["evaluations"]
+        distinct |= pp["distinct"]
+        samples += pp["samples"][:6]
+        dist["prefix_part"] = pp["dist"]
+        log("C16: prefix-style statements done %.1fs" % (time.time() - t0))
+
     nk = sum(1 for f in spec_fail if f.get("sig") == "to-macro-second-cpu-or-flag-statement-double-defined")
     if nk:
         log("C16: %d to-macro runs hit the known CPU/flag-symbol finding" % nk)
     dist["to_macro_known_finding_hits"] = nk
+    nlog = 0
     for f in spec_fail:
-        if f.get("sig") == "to-macro-second-cpu-or-flag-statement-double-defined":
+        if f.get("sig") in ("to-macro-second-cpu-or-flag-statement-double-defined", "upd772x-op-operandless-inner-mnemonic-case-sensitive"):
             continue
-        log("C16 spec failure:", f.get("tag"), f.get("whole"), f.get("why", "")[:160].replace("\n", " | "), json.dumps(f.get("minimised"))[:400])
-    for f in corr_fail:
+        nlog = nlog + 1
+        if nlog <= 16:
+            log("C16 spec failure:", f.get("tag"), f.get("whole"), f.get("why", "")[:160].replace("\n", " | "), json.dumps(f.get("minimised"))[:400])
+    if nlog > 16:
+        log("C16: ... and %d more spec failures" % (nlog - 16))
+    for f in corr_fail[:6]:
         log("C16 correspondence failure:", json.dumps(f)[:500])
+    if len(corr_fail) > 6:
+        log("C16: ... and %d more correspondence failures" % (len(corr_fail) - 6))
     res.coverage = common.proof_coverage(audit, "C16", [
         "correspondence: real asl's splitter seen through a reporting macro vs Model/Split.lean on generated probe lines (differential test)",
         "oracle of the corpus sweep: recorded tests/<t>/<t>.ori images (trusted recorded output)",
-        "harness line analyser (vlib/props/c16.py analyze/classify) decides where rewrites are placed; every rewritten line is re-judged by the Lean model"])
+        "harness line analyser (vlib/props/c16.py analyze/classify/prefix_sites) decides where rewrites are placed; every rewritten line is re-judged by the Lean model "
+        "(c16pair; prefix-style statements: c16px = SplitLine + the code generator's own split; #define lines: c16def = Preprocess)",
+        "generated prefix-statement texts: oracle = image of the plain spelling of the same text (current binary); Z380 DDIR/JP programs: oracle = Spec/PrefixCarry.code"])
     dist["rewrites_by_kind"] = kinds_total
     res.coverage.update(
         evaluations=evaluations, distinct_nontrivial=len(distinct),
-        rule="one evaluation = one rewritten golden source assembled + p2bin + compared with .ori; non-trivial = at least one line rewritten or a whole-file rewrite; distinct by rewritten text",
+        rule="one evaluation = one rewritten golden source assembled + p2bin + compared with .ori; non-trivial = at least one line rewritten or a whole-file rewrite; distinct by rewritten text; "
+             "plus (c16_prefix.py) one evaluation = one generated prefix-statement text in one spelling / one Z380 DDIR-JP program with empty lines, image compared with the plain spelling's / the SPEC's bytes",
         samples=samples, distribution=dist, exclusions=EXCLUSIONS)
     res.assumptions = ["the recorded .ori images are correct", "macro-argument transport under -U is verbatim (used to observe the real split fields)"]
     return common.conclude(res, proof_problems, spec_fail, corr_fail, evaluations)
 
 
-def minimise(bdir, d, name, flags, tdir, ori, lines, new, pl, fail, whole, eol_mode):
-    """find one rewritten line that alone changes the image (only for per-line rewrites with uniform line ends)"""
+def minimise(bdir, d, name, flags, tdir, ori, lines, new, pl, fail, whole, eol_mode, inserted=()):
+    """find one rewritten line - or one inserted line - that alone changes the image (only for per-line rewrites; uniform line ends)"""
     if whole is not None:
         return
     e = "\r\n" if eol_mode == "crlf" else "\n"
     changed = [i for i, (l, k) in enumerate(new) if l != lines[i]]
-    if len(changed) > 3000:
+    if len(changed) > 30000:
         return
     lo = changed
 
-    def image_with(idx):
+    def image_with(idx, ins=()):
         s = set(idx)
-        t = "".join((new[i][0] if i in s else lines[i]) + e for i in range(len(lines)))
+        before = {}
+        for (i, t) in ins:
+            before.setdefault(i, []).append(t)
+        t = "".join("".join(x + e for x in before.get(i, [])) + (new[i][0] if i in s else lines[i]) + e for i in range(len(lines)))
         for fn in os.listdir(d):
             os.unlink(os.path.join(d, fn))
         open(os.path.join(d, name + ".asm"), "wb").write(t.encode("latin-1"))
@@ -946,7 +1169,27 @@ def minimise(bdir, d, name, flags, tdir, ori, lines, new, pl, fail, whole, eol_m
         return
     img, t = image_with(lo)
     if img == ori:
-        fail["minimised"] = "not reproducible with uniform line ends and without inserted lines: line ends / inserted lines are involved"
+        # the rewritten lines alone are harmless: the inserted blank / comment-only lines
+        ins = list(inserted)
+        img, t = image_with([], ins)
+        if img == ori or not ins:
+            fail["minimised"] = "not reproducible with uniform line ends, with the rewritten lines alone or the inserted lines alone: a combination is involved"
+            return
+        while len(ins) > 1:
+            h = len(ins) // 2
+            a, b = ins[:h], ins[h:]
+            ia, _ = image_with([], a)
+            if ia != ori:
+                ins = a
+                continue
+            ib, _ = image_with([], b)
+            if ib != ori:
+                ins = b
+                continue
+            break
+        img, t = image_with([], ins)
+        fail["minimised"] = [dict(inserted_before_line=i + 1, inserted=x, line_before=lines[i - 1] if i else None, line_after=lines[i]) for (i, x) in ins[:10]]
+        fail["files"] = {name + ".asm": t}
         return
     while len(lo) > 1:
         h = len(lo) // 2
@@ -972,6 +1215,26 @@ def replay(args):
         bdir = common.repo_build("hooks")
         name = d["test"]
         with common.Workdir("c16r") as wd:
+            if name == "generated":
+                # generated texts: the respelled files against the plain spelling of the same text / the expected bytes
+                for fn, t in d["files"].items():
+                    open(os.path.join(wd, fn), "wb").write(t.encode("latin-1"))
+                img, diag = build_image(bdir, wd, "w", "", [wd])
+                if "plain" in d:
+                    pd = os.path.join(wd, "plain")
+                    os.makedirs(pd)
+                    open(os.path.join(pd, "w.asm"), "wb").write("".join(l + "\n" for l in d["plain"]).encode("latin-1"))
+                    want, diag0 = build_image(bdir, pd, "w", "", [pd])
+                    print("plain spelling:", want.hex() if want is not None else diag0[:300])
+                elif "expect" in d:
+                    want = bytes.fromhex(d["expect"])
+                    print("expected bytes:", want.hex())
+                else:
+                    print("no recorded expectation; image:", (img or b"").hex(), diag[:300])
+                    return 1
+                print("respelled     :", img.hex() if img is not None else diag[:500])
+                print("same image:", img == want)
+                return 0 if img == want else 1
             for fn, t in d["files"].items():
                 open(os.path.join(wd, fn), "wb").write(t.encode("latin-1"))
             img, diag = build_image(bdir, wd, name, d.get("flags", []), [d.get("incdir", ".")])
